@@ -22,6 +22,33 @@ exercised on the implementation by the harness — nothing is claimed for them h
 namespace C17
 open Codec
 
+/-! ## (0) the cursor arithmetic every codec sits on (`ParseBuf` / `WriteBuf`) -/
+
+/-- under the structure invariant (established by `new`, preserved by every primitive) each read
+primitive of the cursor model equals the list-level reader the codec models use, and none of the
+checked slice / index / subtraction operations can panic -/
+theorem parsebuf_refines (b : RBuf) (h : b.Inv) (n : Nat) :
+    (match b.leU8 with
+      | .ok (x, b') => Rd.u8 b.rem = .ok (x, b'.rem) ∧ b'.Inv
+      | .error e => Rd.u8 b.rem = .error e) ∧
+    (match b.parseArr n with
+      | .ok (a, b') => Rd.arr n b.rem = .ok (a, b'.rem) ∧ b'.Inv
+      | .error e => Rd.arr n b.rem = .error e) ∧
+    (match b.tail n with
+      | .ok (t, b') => Rd.tail n b.rem = .ok (t, b'.rem) ∧ b'.Inv
+      | .error e => Rd.tail n b.rem = .error e) ∧
+    NoPanic b.leU8 ∧ NoPanic (b.parseArr n) ∧ NoPanic (b.tail n) ∧ NoPanic b.asSlice :=
+  ⟨RBuf.leU8_refines b h, RBuf.parseArr_refines b n h, RBuf.tail_refines b n h, RBuf.primitives_np b h n⟩
+example : (RBuf.new [1, 2, 3]).Inv := RBuf.new_inv _
+
+/-- a write either appends exactly the bytes or fails with `NoSpace`; never a panic -/
+theorem writebuf_append (w : WBuf) (src : List Nat) (h : w.Inv) :
+    (if w.stop + src.length ≤ w.bufSize then
+      ∃ w', w.append src = .ok w' ∧ w'.written = w.written ++ src ∧ w'.Inv ∧ w'.start = w.start ∧ w'.bufSize = w.bufSize
+    else w.append src = .error .noSpace) ∧ NoPanic (w.append src) :=
+  ⟨WBuf.append_spec w src h, WBuf.append_np w src h⟩
+example : (WBuf.new 8).Inv := WBuf.new_inv _
+
 /-! ## (1) base-38 -/
 
 /-- every byte string survives encode → decode -/
